@@ -47,6 +47,7 @@ func runC19(c *Config, r *Report) {
 	c19R9(ic, r)
 	c19R10(ic, r)
 	c19R11and12(ic, r)
+	c19R13(ic, r)
 	// R19.8: the channel operations a debugged program runs (the cancellable variants) store their
 	// results on every path, like the blocking ones (same analysis as C01/R01.8)
 	c01R8(ic, r, "R19.8", map[string]bool{"recv": true, "recv2": true, "send": true, "rangeChan": true, "_select": true})
@@ -1088,4 +1089,68 @@ func c19R11and12(ic *IC, r *Report) {
 	}
 	r.Check(len(nils) == 0, "R19.12", "package/frame-debug-data-never-dropped", "", fmt.Sprintf("%d assignments of frame.debug, all of an allocation or of another frame's data", nAs),
 		"the debug data of a frame is dropped or replaced by something that is not an allocation: "+strings.Join(nils, "; ")+". The deferred calls of a function run after exitCall, in frames whose ancestor is that frame: enterCall reads f.anc.debug.g and the debugged program crashes with a nil dereference as soon as a deferred interpreted function runs")
+}
+
+func init() {
+	ruleText["R19.13"] = "setting breakpoints generates no code: none of the functions reachable from the exported breakpoint entry points of the debugger (static call graph of package interp) is the code generator (setExec/getExec), and none calls through node.gen - the exec closures are generated by Execute once the global declarations are wired, from the entry points of the control flow graph"
+}
+
+// c19R13: found through the round-6 report on C19 (E1, E2). SetBreakpoints called getExec on
+// every node of the target as soon as one line was requested: generators ran from arbitrary
+// nodes, in tree order, before the global declarations were wired (var b = a + 1 printed 0) and
+// on nodes which never get a generator (nil dereference in the host's goroutine).
+func c19R13(ic *IC, r *Report) {
+	info := ic.Info
+	genFld := ic.field("node", "gen")
+	var roots []*types.Func
+	for f, fi := range ic.G.Funcs {
+		if fi.Decl.Recv == nil || fi.Decl.Body == nil || !f.Exported() {
+			continue
+		}
+		if sg := f.Type().(*types.Signature); sg.Recv() != nil && isNamedPtr(sg.Recv().Type(), "Debugger") && strings.Contains(f.Name(), "Breakpoint") {
+			roots = append(roots, f)
+		}
+	}
+	if len(roots) == 0 {
+		r.Errorf("R19.13: no exported breakpoint entry point of Debugger found")
+		return
+	}
+	sort.Slice(roots, func(i, j int) bool { return roots[i].Name() < roots[j].Name() })
+	for _, root := range roots {
+		set, parent := ic.G.Reach(root)
+		var bad []string
+		var fs []*types.Func
+		for f := range set {
+			fs = append(fs, f)
+		}
+		sort.Slice(fs, func(i, j int) bool { return objKey(fs[i]) < objKey(fs[j]) })
+		for _, f := range fs {
+			path := func() string {
+				var p []string
+				for g := f; g != nil; g = parent[g] {
+					p = append([]string{g.Name()}, p...)
+					if g == root {
+						break
+					}
+				}
+				return strings.Join(p, " -> ")
+			}
+			if f.Pkg() == ic.Pk.Types && (f.Name() == "setExec" || f.Name() == "getExec") {
+				bad = append(bad, path())
+				continue
+			}
+			fi := ic.G.Funcs[f]
+			if fi == nil || fi.Decl.Body == nil {
+				continue
+			}
+			ast.Inspect(fi.Decl.Body, func(q ast.Node) bool {
+				if c, ok := q.(*ast.CallExpr); ok && genFld != nil && selField(info, c.Fun) == genFld {
+					bad = append(bad, path()+" calls "+types.ExprString(c.Fun)+" at "+ic.pos(c.Pos()))
+				}
+				return true
+			})
+		}
+		r.Check(len(bad) == 0, "R19.13", "Debugger."+root.Name()+"/generates-no-code", ic.pos(ic.G.Funcs[root].Decl.Pos()), fmt.Sprintf("%d functions reachable, none generates exec closures", len(set)),
+			"(*Debugger)."+root.Name()+" reaches the code generator: "+strings.Join(dedupStr(bad), "; ")+". Generators then run from arbitrary nodes before Execute has wired the program (var a = 2; var b = a + 1 prints 0 as soon as one line breakpoint is requested) and on nodes which never get a generator (nil dereference in the caller of SetBreakpoints)")
+	}
 }
